@@ -4035,7 +4035,7 @@ let script_rest_of hb =
     ('.'::[])) :: []) :: [])))), CNil)))), CNil)), (BCons ((TEq (((WVar
     (true,
     ('i'::('n'::('p'::('u'::('t'::('_'::('m'::('e'::('t'::('h'::('o'::('d'::[])))))))))))))) :: []),
-    ((WLit ('c'::('m'::('d'::[])))) :: []))), (CCons ((CEcho ((((WVar (false,
+    ((WLit ('c'::('m'::('d'::[])))) :: []))), (CCons ((CEcho ((((WVar (true,
     ('i'::('n'::('p'::('u'::('t'::('_'::('f'::('i'::('l'::('e'::[])))))))))))) :: []) :: []),
     (Some ((WLit
     ('f'::('i'::('l'::('e'::('l'::('i'::('s'::('t'::('.'::('t'::('x'::('t'::[]))))))))))))) :: [])))),
@@ -4215,7 +4215,7 @@ let script_rest_of0 _ =
     ('.'::[])) :: []) :: [])))), CNil)))), CNil)), (BCons ((TEq (((WVar
     (true,
     ('i'::('n'::('p'::('u'::('t'::('_'::('m'::('e'::('t'::('h'::('o'::('d'::[])))))))))))))) :: []),
-    ((WLit ('c'::('m'::('d'::[])))) :: []))), (CCons ((CEcho ((((WVar (false,
+    ((WLit ('c'::('m'::('d'::[])))) :: []))), (CCons ((CEcho ((((WVar (true,
     ('i'::('n'::('p'::('u'::('t'::('_'::('f'::('i'::('l'::('e'::[])))))))))))) :: []) :: []),
     (Some ((WLit
     ('f'::('i'::('l'::('e'::('l'::('i'::('s'::('t'::('.'::('t'::('x'::('t'::[]))))))))))))) :: [])))),
@@ -4407,7 +4407,7 @@ let script_rest_of1 _ =
     ('.'::[])) :: []) :: [])))), CNil)))), CNil)), (BCons ((TEq (((WVar
     (true,
     ('i'::('n'::('p'::('u'::('t'::('_'::('m'::('e'::('t'::('h'::('o'::('d'::[])))))))))))))) :: []),
-    ((WLit ('c'::('m'::('d'::[])))) :: []))), (CCons ((CEcho ((((WVar (false,
+    ((WLit ('c'::('m'::('d'::[])))) :: []))), (CCons ((CEcho ((((WVar (true,
     ('i'::('n'::('p'::('u'::('t'::('_'::('f'::('i'::('l'::('e'::[])))))))))))) :: []) :: []),
     (Some ((WLit
     ('f'::('i'::('l'::('e'::('l'::('i'::('s'::('t'::('.'::('t'::('x'::('t'::[]))))))))))))) :: [])))),
